@@ -287,7 +287,13 @@ class SchedulerExpression(TaskExpression[Result]):
     def _calc_hash(self) -> str:
         registry = get_type_registry()
         args_hash = hash_arguments(registry, self.args, self.kwargs)
-        return hash_struct(["SchedulerExpression", self.task_name, args_hash])
+        if not self._options:
+            # Backwards compatible hash.
+            return hash_struct(["SchedulerExpression", self.task_name, args_hash])
+        else:
+            # Call-time options (e.g. catch.options(cache_scope=...)) are part of the call.
+            options_hash = hash_bytes(pickle_dumps(self._options))
+            return hash_struct(["SchedulerExpression", self.task_name, args_hash, options_hash])
 
 
 class ValueExpression(Expression[Result]):
